@@ -29,6 +29,7 @@ import EasyNet.Drv.Iso
 import EasyNet.Drv.TlsEof
 import EasyNet.Drv.GenericFr
 import EasyNet.Drv.Life
+import EasyNet.Drv.Listener
 open EasyNet.Drv
 
 /-- one runner per model family; each returns `none` for model names it does not know -/
@@ -54,6 +55,7 @@ def runners : List (String → List String → List String → Option (List Stri
   , runTlsEof
   , runGenericFr
   , runLife
+  , runListener
   ]
 
 def dispatch (model : String) (cfg : List String) (ops : List String) : Option (List String) :=
